@@ -77,8 +77,8 @@ pub struct HistCfg {
     pub lang: LangId,
     pub gen: GenCfg,
     pub max_ops: usize,
-    /// weights of the op kinds: add, unrelated, permuted, renamed, context, reorder, existing, congruent-parents, symmetric-then-redundant, improving-child cascade, symmetric-class-used-twice
-    pub weights: [usize; 11],
+    /// weights of the op kinds: add, unrelated, permuted, renamed, context, reorder, existing, congruent-parents, symmetric-then-redundant, improving-child cascade, symmetric-class-used-twice, symmetric-then-several-slots-redundant
+    pub weights: [usize; 12],
     pub namings: Vec<Naming>,
 }
 
@@ -93,7 +93,7 @@ impl HistCfg {
                 ..GenCfg::default()
             },
             max_ops: 6,
-            weights: [2, 2, 3, 3, 3, 2, 3, 2, 2, 2, 2],
+            weights: [2, 2, 3, 3, 3, 2, 3, 2, 2, 2, 2, 1],
             namings: vec![Naming::Alpha],
         }
     }
@@ -389,6 +389,38 @@ pub fn decode_hist_from(cfg: &HistCfg, chunks: &[Vec<u16>], naming_choice: u16, 
                     ops.push(HOp::Union(i1, i2));
                 } else {
                     ops.push(HOp::Union(i2, i1));
+                }
+            }
+            11 => {
+                // a multi-slot leaf made symmetric under 1-2 random permutations, then united with a smaller leaf over a strict
+                // subset of its names: several slots become redundant in one step, orbits are cut in the middle
+                let leaves: Vec<&OpSig> = sig
+                    .ops
+                    .iter()
+                    .filter(|o| o.is_leaf() && !o.fields.is_empty() && o.fields.iter().all(|f| matches!(f, Field::Slot)) && o.fields.len() <= cfg.gen.max_fv.max(3) && cfg.gen.ops.as_ref().map(|v| v.contains(&o.name)).unwrap_or(true))
+                    .collect();
+                let big: Vec<&&OpSig> = leaves.iter().filter(|o| o.fields.len() >= 3).collect();
+                if big.is_empty() {
+                    let t = mk(&mut src);
+                    push_add(t, &mut ops, &mut terms, &mut n_terms);
+                    continue;
+                }
+                let o = big[src.pick(big.len())];
+                let k = o.fields.len();
+                let names: Vec<Name> = (0..k as Name).collect();
+                let small: Vec<&&OpSig> = leaves.iter().filter(|p| p.fields.len() < k).collect();
+                let i0 = push_add(Tm::leaf(o.name, &names), &mut ops, &mut terms, &mut n_terms);
+                for _ in 0..1 + src.pick(2) {
+                    let g = random_perm(&names, &mut src);
+                    let j = push_add(Tm::leaf(o.name, &names.iter().map(|n| g[n]).collect::<Vec<_>>()), &mut ops, &mut terms, &mut n_terms);
+                    ops.push(if src.coin(1, 2) { HOp::Union(i0, j) } else { HOp::Union(j, i0) });
+                }
+                if !small.is_empty() {
+                    let q = small[src.pick(small.len())];
+                    let mut pool = names.clone();
+                    let args: Vec<Name> = (0..q.fields.len()).map(|_| pool.remove(src.pick(pool.len()))).collect();
+                    let j = push_add(Tm::leaf(q.name, &args), &mut ops, &mut terms, &mut n_terms);
+                    ops.push(if src.coin(1, 2) { HOp::Union(i0, j) } else { HOp::Union(j, i0) });
                 }
             }
             10 => {
